@@ -162,6 +162,11 @@ func init() {
 		{Harness: pkgFeeder + ".VerifFeedOnce", Quick: p("attempts", 2, "maxproof", 1), Thorough: p("attempts", 2, "maxproof", 2)},
 		{Harness: pkgRest + ".VerifDistribute", Domain: sym.DomString, Solver: sym.CVC5, Quick: p("logs", 2), Thorough: p("logs", 2)},
 	}})
+	pcpRun := runSpec{Harness: pkgWitness + ".VerifParseCheckpointContract", Domain: sym.DomString, Solver: sym.CVC5, Quick: p("pcp_real", 1, "maxsplit", 5), Thorough: p("pcp_real", 1, "maxsplit", 5), Covers: []string{"pcp/accepts", "pcp/refuses-wrong-origin", "pcp/refuses-bad-signature"}}
+	reg(&checkSpec{ID: "pcp", Runs: []runSpec{pcpRun}, Assumptions: commonAssumptions})
+	pcpT := pcpRun
+	pcpT.OnlyThorough = true // ~4 min of string queries: thorough tier (and ./check pcp)
+	checks["C02"].Runs = append(checks["C02"].Runs, pcpT)
 	reg(&checkSpec{ID: "vc", Runs: vcRuns(), Assumptions: commonAssumptions})
 	reg(&checkSpec{ID: "litmus", Runs: []runSpec{
 		{Harness: pkgLitmus + ".Arith", Covers: []string{"L/cover-gt", "L/neg-int"}},
@@ -337,8 +342,17 @@ func cmdCheck(args []string) int {
 				}
 			}
 		}
+		nCover := len(scs)
+		// violations of the one-step harness whose model is replayable are rebuilt natively too
+		var vioIdx []int
+		for vi, v := range violations {
+			if strings.HasSuffix(v.Harness, ".VerifUpdateStep") && v.Kind == "assert" && v.Replayable && v.Model != nil {
+				vioIdx = append(vioIdx, vi)
+				scs = append(scs, scen{Cover: "violation:" + v.Assert, Model: v.Model})
+			}
+		}
 		if len(scs) > 0 && os.Getenv("WSYM_NO_REPLAY") == "" {
-			replayTotal = len(scs)
+			replayTotal = nCover
 			os.MkdirAll(filepath.Join(root, ".work"), 0o755)
 			jf := filepath.Join(root, ".work", fmt.Sprintf("replay-%s-%d.json", id, os.Getpid()))
 			b, _ := json.MarshalIndent(scs, "", " ")
@@ -348,7 +362,33 @@ func cmdCheck(args []string) int {
 			out, err := cmd.CombinedOutput()
 			txt := string(out)
 			if i := strings.Index(txt, "REPLAYED "); i >= 0 {
-				fmt.Sscanf(txt[i:], "REPLAYED %d/", &replayed)
+				fmt.Sscanf(txt[i:], "REPLAYED %d ", &replayed)
+			}
+			// per-scenario oracle verdicts
+			oracle := map[int]string{}
+			seenSc := map[int]bool{}
+			for _, l := range strings.Split(txt, "\n") {
+				var si int
+				var name string
+				if n, _ := fmt.Sscanf(l, "SCENARIO %d %s", &si, &name); n == 2 {
+					seenSc[si] = true
+					if j := strings.Index(l, "oracles="); j >= 0 {
+						oracle[si] = strings.TrimSpace(l[j+len("oracles="):])
+					}
+					if si < nCover && oracle[si] != "" {
+						inconclusive = append(inconclusive, fmt.Sprintf("native replay: cover witness %s violates native oracle(s) %s on the real build", name, oracle[si]))
+					}
+				}
+			}
+			for k, vi := range vioIdx {
+				si := nCover + k
+				switch {
+				case !seenSc[si] || strings.Contains(txt, fmt.Sprintf("SCENARIO %d %s unreplayable", si, scs[si].Cover)):
+				case oracle[si] != "":
+					violations[vi].Replay = "confirmed natively (oracles: " + oracle[si] + ")"
+				default:
+					violations[vi].Replay = "not-reproduced"
+				}
 			}
 			if err != nil || strings.Contains(txt, "REPLAY MISMATCH") || replayed != replayTotal {
 				for _, l := range strings.Split(txt, "\n") {
@@ -362,6 +402,18 @@ func cmdCheck(args []string) int {
 			}
 			os.Remove(jf)
 		}
+		// a violation that rests on uninterpreted stand-ins (byte scans of opaque bytes) is reported
+		// only if the real build reproduced it; otherwise the check is inconclusive
+		var kept []*sym.Violation
+		for _, v := range violations {
+			if len(v.Weak) > 0 && !strings.HasPrefix(v.Replay, "confirmed") {
+				inconclusive = append(inconclusive, fmt.Sprintf("%s: assertion %s fails only under an uninterpreted model of %v and the native replay did not confirm it (%s)", short(v.Harness), v.Assert, v.Weak, orStr(v.Replay, "not replayable")))
+				continue
+			}
+			kept = append(kept, v)
+		}
+		nViol -= len(violations) - len(kept)
+		violations = kept
 	}
 
 	// ---- replay artefacts and verdict lines ----
@@ -388,6 +440,9 @@ func cmdCheck(args []string) int {
 		os.WriteFile(filepath.Join(dir, "violation.json"), b, 0o644)
 		fmt.Printf("VIOLATION property=%s replay=%s\n", id, dir)
 		fmt.Printf("  assertion %s (%s) %s\n", v.Assert, v.Kind, v.Msg)
+		if v.Replay != "" {
+			fmt.Printf("  native replay of the solver's model: %s\n", v.Replay)
+		}
 	}
 	for _, s := range inconclusive {
 		fmt.Printf("INCONCLUSIVE property=%s %s\n", id, s)
@@ -477,6 +532,13 @@ func cmdCheck(args []string) int {
 		return 2
 	}
 	return 0
+}
+
+func orStr(a, b string) string {
+	if a != "" {
+		return a
+	}
+	return b
 }
 
 func short(h string) string {
